@@ -1,5 +1,419 @@
 package corpus
 
-// RunHelpers is filled in by helpers_eval.go
+import (
+	"context"
+	"encoding/base64"
+	"fmt"
+	"strings"
 
-func RunHelpers(prop, out, tier string) {}
+	"github.com/open-policy-agent/opa/v1/ast"
+	"github.com/open-policy-agent/opa/v1/rego"
+
+	rbundle "github.com/styrainc/regal/bundle"
+	"github.com/styrainc/regal/pkg/builtins"
+	"github.com/styrainc/roast/pkg/transform"
+
+	"verifharness/hutil"
+)
+
+// Evaluation of regal's internal Rego helpers through OPA with the REAL embedded bundle
+// (rego.ParsedBundle("regal", &rbundle.LoadedBundle) + the regal builtins), the way pkg/linter prepares
+// its queries. One prepared query per helper; the arguments travel in `input`.
+
+type helperQ struct {
+	name string
+	pq   rego.PreparedEvalQuery
+}
+
+func prepare(name, query string) helperQ {
+	args := []func(*rego.Rego){
+		rego.ParsedBundle("regal", &rbundle.LoadedBundle),
+		rego.Query(query),
+	}
+	args = append(args, builtins.RegalBuiltinRegoFuncs...)
+	pq, err := rego.New(args...).PrepareForEval(context.Background())
+	if err != nil {
+		panic(fmt.Sprintf("prepare %s: %v", name, err))
+	}
+	return helperQ{name: name, pq: pq}
+}
+
+// Obs is what OPA did: undefined, a value, or an evaluation error (class only).
+type Obs struct {
+	Defined bool   `json:"defined"`
+	Err     string `json:"err,omitempty"`
+	Val     any    `json:"val,omitempty"`
+}
+
+func (h helperQ) eval(input map[string]any) Obs {
+	rs, err := h.pq.Eval(context.Background(), rego.EvalInput(input))
+	if err != nil {
+		return Obs{Err: ErrClass(err.Error())}
+	}
+	if len(rs) == 0 {
+		return Obs{}
+	}
+	return Obs{Defined: true, Val: rs[0].Bindings["x"]}
+}
+
+// HCase is one helper call with what OPA answered.
+type HCase struct {
+	Helper string         `json:"helper"`
+	Lines  []string       `json:"lines"`
+	File   string         `json:"file"`
+	Args   map[string]any `json:"args"`
+	Got    Obs            `json:"got"`
+}
+
+var linePool = [][]string{
+	{},
+	{""},
+	{"abc"},
+	{"package p", "", "x := 1"},
+	{"package p", "", "allow if {", "\tinput.x == 1", "\tinput.y", "}", ""},
+	{"héllo wörld := \"日本語\"", "😀 := 1 # 😀", "\tx"},
+	{"a", "bb", "ccc", "dddd", "eeeee", "ffffff"},
+	{"日本語テキスト", "ßß", "", "ascii only"},
+	{"0123456789"},
+}
+
+func genQuadParts(r *hutil.Rng, n int) [4]int {
+	rowish := func() int { return r.Below(n+4) - 1 }
+	colish := func() int { return r.Below(14) - 1 }
+	row := rowish()
+	er := row
+	switch r.Below(4) {
+	case 0:
+		er = rowish()
+	case 1:
+		er = row + 1 + r.Below(3)
+	}
+	return [4]int{row, colish(), er, colish()}
+}
+
+var malformed = []string{"", ":", ":::", "1:2:3", "1:2:3:4:5", "a:b:c:d", "1:x:1:2", "x:1:1:2", "1:1:y:2", "1:1:1:z", " 1:1:1:1", "1:1:1:1 ", "1:1:1:", ":1:1:1", "1::1:1", "--1:1:1:1", "1:1:1:-", "one:1:1:1"}
+
+func genLocString(r *hutil.Rng, n int) string {
+	if r.Below(12) == 0 {
+		return Pick(r, malformed)
+	}
+	q := genQuadParts(r, n)
+	return fmt.Sprintf("%d:%d:%d:%d", q[0], q[1], q[2], q[3])
+}
+
+func genLocObj(r *hutil.Rng, n int) map[string]any {
+	o := map[string]any{}
+	q := genQuadParts(r, n)
+	if r.Below(6) != 0 {
+		o["row"] = q[0]
+	}
+	if r.Below(6) != 0 {
+		o["col"] = q[1]
+	}
+	if r.Below(3) != 0 {
+		o["text"] = Pick(r, []string{"", "some text", "日本"})
+	}
+	if r.Below(3) != 0 {
+		o["end"] = map[string]any{"row": q[2], "col": q[3]}
+	}
+	if r.Below(3) == 0 {
+		o["file"] = Pick(r, []string{"other.rego", ""})
+	}
+	return o
+}
+
+// a node: object with (or without) a "location" attribute
+func genNode(r *hutil.Rng, n int) map[string]any {
+	switch r.Below(10) {
+	case 0:
+		return map[string]any{"type": "var", "value": "x"} // no location
+	case 1:
+		return map[string]any{"location": genLocObj(r, n), "type": "var"}
+	case 2:
+		return map[string]any{"location": 17, "type": "var"}
+	default:
+		return map[string]any{"location": genLocString(r, n), "type": "var", "value": "x"}
+	}
+}
+
+func genArg(r *hutil.Rng, n int) any {
+	switch r.Below(10) {
+	case 0:
+		return genLocString(r, n)
+	case 1:
+		var arr []any
+		for i := r.Below(4); i > 0; i-- {
+			arr = append(arr, genNode(r, n))
+		}
+		if arr == nil {
+			return []any{}
+		}
+		return arr
+	case 2:
+		return Pick(r, []string{"42", "true", "null"}) // decoded below into a non-string scalar
+	default:
+		return genNode(r, n)
+	}
+}
+
+func scalarFix(v any) any {
+	if s, ok := v.(string); ok {
+		switch s {
+		case "42":
+			return 42
+		case "true":
+			return true
+		case "null":
+			return nil
+		}
+	}
+	return v
+}
+
+func mkInput(lines []string, file string, args map[string]any) map[string]any {
+	ls := make([]any, len(lines))
+	for i := range lines {
+		ls[i] = lines[i]
+	}
+	in := map[string]any{"regal": map[string]any{"file": map[string]any{"name": file, "lines": ls}}}
+	for k, v := range args {
+		in[k] = v
+	}
+	return in
+}
+
+// RunHelpers writes one JSON line per case.
+func RunHelpers(prop, out, tier string) {
+	r := hutil.NewRng(hutil.SeedFromEnv() ^ 0x5EED)
+	o := hutil.NewOut(out)
+	defer o.Close()
+	if prop == "C07" {
+		runLocationHelpers(r, o, tier)
+	} else {
+		runFrameworkHelpers(r, o, tier)
+	}
+}
+
+func runLocationHelpers(r *hutil.Rng, o *hutil.Out, tier string) {
+	n := 260
+	if tier != "quick" {
+		n = 2500
+	}
+	qTLO := prepare("to_location_object", "x = data.regal.util.to_location_object(input.x)")
+	qLoc := prepare("location", "x = data.regal.result.location(input.x)")
+	qRLB := prepare("ranged_location_between", "x = data.regal.result.ranged_location_between(input.x, input.y)")
+	qRFR := prepare("ranged_from_ref", "x = data.regal.result.ranged_from_ref(input.ref)")
+	qInf := prepare("infix_expr_location", "x = data.regal.result.infix_expr_location(input.expr)")
+	qCut := prepare("cut_col", "x = data.regal.util._cut_col(input.i, input.len, input.line, input.col, input.end_col)")
+	qL2T := prepare("location_to_text", "x = data.regal.util._location_to_text(input.row, input.col, input.end_row, input.end_col)")
+	qSub := prepare("substring", "x = substring(input.s, input.off, input.len)")
+	emit := func(h helperQ, lines []string, args map[string]any) {
+		file := "p/file.rego"
+		o.Emit(HCase{Helper: h.name, Lines: lines, File: file, Args: args, Got: h.eval(mkInput(lines, file, args))})
+	}
+	// exhaustive small block: every quad over a 3-line table with rows/cols in a small window
+	small := []string{"ab", "", "cdé"}
+	for row := -1; row <= 4; row++ {
+		for er := -1; er <= 4; er++ {
+			for _, c := range []int{-1, 0, 1, 2, 4} {
+				for _, ec := range []int{-1, 0, 1, 3, 5} {
+					s := fmt.Sprintf("%d:%d:%d:%d", row, c, er, ec)
+					emit(qTLO, small, map[string]any{"x": s})
+					if tier != "quick" || (row+er+c+ec)%3 == 0 {
+						emit(qLoc, small, map[string]any{"x": map[string]any{"location": s}})
+					}
+				}
+			}
+		}
+	}
+	for _, m := range malformed {
+		emit(qTLO, small, map[string]any{"x": m})
+		emit(qLoc, small, map[string]any{"x": m})
+		emit(qInf, small, map[string]any{"expr": []any{map[string]any{"location": "1:1:1:2"}, map[string]any{"location": m}, map[string]any{"location": "1:1:1:2"}}})
+		emit(qInf, small, map[string]any{"expr": []any{map[string]any{"location": "1:1:1:2"}, map[string]any{"location": "1:1:1:2"}, map[string]any{"location": m}}})
+	}
+	for i := 0; i < n; i++ {
+		lines := linePool[r.Below(len(linePool))]
+		nl := len(lines)
+		emit(qTLO, lines, map[string]any{"x": scalarFix(func() any {
+			if r.Below(5) == 0 {
+				return genLocObj(r, nl)
+			}
+			if r.Below(12) == 0 {
+				return "42"
+			}
+			return genLocString(r, nl)
+		}())})
+		emit(qLoc, lines, map[string]any{"x": scalarFix(genArg(r, nl))})
+		emit(qRLB, lines, map[string]any{"x": scalarFix(genArg(r, nl)), "y": scalarFix(genArg(r, nl))})
+		var ref []any
+		for j := r.Below(5); j > 0; j-- {
+			ref = append(ref, scalarFix(genArg(r, nl)))
+		}
+		if ref == nil {
+			ref = []any{}
+		}
+		emit(qRFR, lines, map[string]any{"ref": ref})
+		var expr []any
+		for j := r.Below(5); j > 0; j-- {
+			expr = append(expr, genNode(r, nl))
+		}
+		if expr == nil {
+			expr = []any{}
+		}
+		emit(qInf, lines, map[string]any{"expr": expr})
+		q := genQuadParts(r, nl)
+		emit(qL2T, lines, map[string]any{"row": q[0], "col": q[1], "end_row": q[2], "end_col": q[3]})
+		line := "x"
+		if nl > 0 {
+			line = lines[r.Below(nl)]
+		}
+		emit(qCut, lines, map[string]any{"i": r.Below(5) - 1, "len": r.Below(5) - 1, "line": line, "col": r.Below(12) - 1, "end_col": r.Below(12) - 1})
+		emit(qSub, nil, map[string]any{"s": line, "off": r.Below(14) - 2, "len": r.Below(14) - 2})
+	}
+	// ---- the line table: roast's transform.ToAST is what pkg/linter feeds every file through
+	mod := ast.MustParseModule("package p\n")
+	contents := []string{"", "\n", "a", "a\n", "a\nb", "a\r\nb", "a\r\nb\r\n", "\r\n", "\r", "a\rb", "a\r\r\nb", "a\n\rb", "\r\n\r\n", "a\r\n\nb\n\r\n", "é\r\n日本\n", "\n\n\npackage p\r\n"}
+	for i := 0; i < n/4; i++ {
+		var sb strings.Builder
+		for j := r.Below(12); j > 0; j-- {
+			sb.WriteString(Pick(r, []string{"a", "b", "\n", "\r\n", "\r", "é", " ", "\t", "\n\n", "x := 1"}))
+		}
+		contents = append(contents, sb.String())
+	}
+	for _, c := range contents {
+		v, err := transform.ToAST("f.rego", c, mod, false)
+		var lines []string
+		if err == nil {
+			if lt := v.(ast.Object).Get(ast.StringTerm("regal")).Get(ast.StringTerm("file")).Get(ast.StringTerm("lines")); lt != nil {
+				lt.Value.(*ast.Array).Foreach(func(t *ast.Term) { lines = append(lines, string(t.Value.(ast.String))) })
+			}
+		}
+		o.Emit(map[string]any{"helper": "file_lines", "content": c, "lines": lines, "err": err != nil})
+		for _, k := range []int{1, 3} {
+			v2, err2 := transform.ToAST("f.rego", strings.Repeat("\n", k)+c, mod, false)
+			var l2 []string
+			if err2 == nil {
+				v2.(ast.Object).Get(ast.StringTerm("regal")).Get(ast.StringTerm("file")).Get(ast.StringTerm("lines")).Value.(*ast.Array).Foreach(func(t *ast.Term) { l2 = append(l2, string(t.Value.(ast.String))) })
+			}
+			o.Emit(map[string]any{"helper": "file_lines_shift", "content": c, "k": k, "lines": l2, "err": err2 != nil})
+		}
+	}
+}
+
+func b64(s string) string { return base64.StdEncoding.EncodeToString([]byte(s)) }
+
+// evalLiteral evaluates a closed query (no input): used where the argument cannot travel as JSON (sets).
+func evalLiteral(query string) Obs {
+	h := prepare("literal", query)
+	return h.eval(map[string]any{})
+}
+
+func runFrameworkHelpers(r *hutil.Rng, o *hutil.Out, tier string) {
+	n := 150
+	if tier != "quick" {
+		n = 1500
+	}
+	emit := func(h helperQ, args map[string]any) {
+		lines := []string{"package p", "", "# c", "x := 1 # d", "", "y := 2"}
+		o.Emit(HCase{Helper: h.name, Lines: lines, File: "p/file.rego", Args: args, Got: h.eval(mkInput(lines, "p/file.rego", args))})
+	}
+	// ---- _category_title_from_path
+	qCTP := prepare("category_title_from_path", "x = data.regal.result._category_title_from_path(input.path)")
+	words := []any{"regal", "rules", "custom", "bugs", "x", 7, nil}
+	for l := 0; l <= 6; l++ {
+		for i := 0; i < 1+l*6; i++ {
+			var path []any
+			for j := 0; j < l; j++ {
+				switch {
+				case r.Below(3) != 0 && l == 4 && j < 2:
+					path = append(path, []any{"regal", "rules"}[j])
+				case r.Below(3) != 0 && l == 5 && j < 3:
+					path = append(path, []any{"custom", "regal", "rules"}[j])
+				default:
+					path = append(path, words[r.Below(len(words))])
+				}
+			}
+			if path == nil {
+				path = []any{}
+			}
+			emit(qCTP, map[string]any{"path": path})
+		}
+	}
+	emit(qCTP, map[string]any{"path": "regal"})
+	// ---- _related_resources
+	qRR := prepare("related_resources", "x = data.regal.result._related_resources(input.ann, \"cat\", \"title\")")
+	for _, ann := range []any{
+		map[string]any{}, map[string]any{"related_resources": []any{map[string]any{"ref": "https://e.x"}}},
+		map[string]any{"related_resources": []any{}}, map[string]any{"related_resources": false},
+		map[string]any{"related_resources": true}, map[string]any{"related_resources": nil},
+		map[string]any{"related_resources": 0}, map[string]any{"related_resources": ""},
+		map[string]any{"title": "t"}, "not an object", []any{}, nil,
+	} {
+		emit(qRR, map[string]any{"ann": ann})
+	}
+	// ---- fail: the selection structure
+	qFail := prepare("fail", "x = data.regal.result.fail(input.meta, input.details)")
+	link := func(kind int) map[string]any {
+		switch kind {
+		case 0: // rule-scoped link
+			return map[string]any{"annotations": map[string]any{"scope": "rule", "description": "d"}, "path": []any{"regal", "rules", "bugs", "x", "report"}}
+		case 1: // package link of a provided rule
+			return map[string]any{"annotations": map[string]any{"scope": "package", "description": "d"}, "path": []any{"regal", "rules", Pick(r, []string{"bugs", "style"}), Pick(r, []string{"x", "y", "z"})}}
+		case 2: // package link of a custom rule
+			return map[string]any{"annotations": map[string]any{"scope": "package", "description": "d"}, "path": []any{"custom", "regal", "rules", Pick(r, []string{"bugs", "style"}), Pick(r, []string{"x", "y", "z"})}}
+		case 3: // package link of something else
+			return map[string]any{"annotations": map[string]any{"scope": "package", "description": "d"}, "path": []any{"foo", "bar"}}
+		case 4: // subpackages
+			return map[string]any{"annotations": map[string]any{"scope": "subpackages", "title": "s"}, "path": []any{"regal"}}
+		default: // no annotations
+			return map[string]any{"path": []any{"regal", "rules", "bugs", "x"}}
+		}
+	}
+	details := []any{map[string]any{}, map[string]any{"location": map[string]any{"row": 1, "col": 1}}, "nope"}
+	for i := 0; i < n; i++ {
+		var chain []any
+		for j := r.Below(5); j > 0; j-- {
+			chain = append(chain, link(r.Below(6)))
+		}
+		if chain == nil {
+			chain = []any{}
+		}
+		emit(qFail, map[string]any{"meta": chain, "details": details[r.Below(len(details))]})
+	}
+	full := map[string]any{"title": "t", "description": "d", "custom": map[string]any{"category": "c"}, "related_resources": []any{map[string]any{"ref": "https://e.x", "description": "documentation"}}}
+	noTitle := map[string]any{"description": "d", "custom": map[string]any{"category": "c"}, "related_resources": []any{}}
+	for _, m := range []any{full, noTitle, map[string]any{}, "s", 3, nil} {
+		for _, d := range details {
+			emit(qFail, map[string]any{"meta": m, "details": d})
+		}
+	}
+	// ---- _file_name_relative_to_root
+	qFNR := prepare("file_name_relative_to_root", "x = data.regal.main._file_name_relative_to_root(input.f, input.root)")
+	for i := 0; i < n; i++ {
+		root := Pick(r, []string{"/", "", "/ws", "/ws/", "ws", "//", "file:///ws", "/a/b"})
+		f := Pick(r, []string{"", "/", "/ws", root, root + "/", ""}) + Pick(r, []string{"", "p.rego", "/p.rego", "a/p.rego", "/ws/p.rego", "//p.rego"})
+		emit(qFNR, map[string]any{"f": f, "root": root})
+	}
+	// ---- ignore_directives[row]
+	qID := prepare("ignore_directives", "x = data.regal.ast.ignore_directives")
+	texts := []string{" regal ignore:a", " regal ignore:a,b", " plain", " regal ignore:line-length", "regal ignore:x"}
+	for i := 0; i < n; i++ {
+		var cs []any
+		for j := r.Below(5); j > 0; j-- {
+			row := 1 + r.Below(6)
+			cs = append(cs, map[string]any{"location": fmt.Sprintf("%d:1:%d:5", row, row), "text": b64(Pick(r, texts))})
+		}
+		if cs == nil {
+			cs = []any{}
+		}
+		emit(qID, map[string]any{"comments": cs})
+	}
+	// ---- to_set / to_array (closed queries: sets cannot be passed as JSON input)
+	for _, q := range []string{"{1, 2}", "[1, 2, 2]", "set()", "[]", "{\"a\": 1}", "5", "\"s\"", "null", "{[1], [2]}"} {
+		o.Emit(map[string]any{"helper": "to_set", "arg": q, "got": evalLiteral("y = data.regal.util.to_set(" + q + "); x = [is_set(y), count(y)]")})
+		o.Emit(map[string]any{"helper": "to_array", "arg": q, "got": evalLiteral("y = data.regal.util.to_array(" + q + "); x = [is_array(y), count(y)]")})
+	}
+	// ---- the location helpers (shared with C07): any evaluation error there is a conflict in util/result
+	runLocationHelpers(r, o, "quick")
+}
